@@ -30,6 +30,10 @@ def text(a):
         return '1/Y1'
     if t == 'failref':
         return 'T1'
+    if t == 'failcat':
+        return '(T1&"x")'
+    if t == 'failcmp':
+        return '(T1>0)'
     if t == 'na':
         return 'W1'
     if t == 'blank':
@@ -202,7 +206,7 @@ def public_path(run, recs):
 # ---------------------------------------------------------------- direction B
 def random_ast(rng, d):
     def leaf():
-        return rng.choice([{'t': 'num', 'n': rng.choice([7, 9, 3, 12])}, {'t': 'num', 'n': 7}, {'t': 'fail'}, {'t': 'na'}, {'t': 'blank'}, {'t': 'text'}, {'t': 'failref'}])
+        return rng.choice([{'t': 'num', 'n': rng.choice([7, 9, 3, 12])}, {'t': 'num', 'n': 7}, {'t': 'fail'}, {'t': 'na'}, {'t': 'blank'}, {'t': 'text'}, {'t': 'failref'}, {'t': 'failcat'}, {'t': 'failcmp'}])
 
     def cond():
         return {'t': 'cond', 'i': rng.randint(1, 3)}
@@ -219,7 +223,7 @@ def random_ast(rng, d):
             return {'t': 'ifs', 'ps': [[cond(), node(dd - 1)] for _ in range(rng.randint(1, 3))]}
         return {'t': 'iferror', 'x': node(dd - 1), 'f': node(dd - 1)}
     a = node(d)
-    while a['t'] in ('num', 'fail', 'na', 'blank', 'text', 'failref'):
+    while a['t'] in ('num', 'fail', 'na', 'blank', 'text', 'failref', 'failcat', 'failcmp'):
         a = node(d)
     return a
 
